@@ -49,7 +49,8 @@ theorem addBuild_eq {s : State} {q : Pending} {P : List Pending} (hp : s.pending
 theorem addWrite_eq {s : State} {q : Pending} {P : List Pending} (hp : s.pending = q :: P) (hq : q.stage = .built)
     (ok : Bool) : addWrite s q ok =
       if ok then ({ s with pending := { q with stage := .written } :: P,
-                           db := dbPut s.db q.id (freshFields q.m q.o q.port) }, .ok { q with stage := .written })
+                           db := dbPut s.db q.id (freshFields q.m q.o q.port),
+                           dead := s.dead.filter (fun e => e.1 != q.id) }, .ok { q with stage := .written })
       else ({ s with pending := P, free := q.port :: s.free }, .error .write) := by
   unfold addWrite
   simp [hp, hq]
@@ -188,9 +189,11 @@ theorem step_pending_nil {s : State} (hp : s.pending = []) {op : Op} (hs : op.se
   | addTracker id uri => simp only [step, addTracker]; split <;> simp [hp]
   | bump id d => simp [step, bump, hp]
   | updateStats => simp [step, updateStats, hp]
-  | reopen r =>
+  | reopen r bad =>
     simp only [step, reopen, hp, ne_eq, not_true_eq_false, if_false, openOn]
     rw [foldl_load_pending]; rfl
+  | clean => simp only [step, clean]; split <;> simp [hp]
+  | tamper id ih => simp [step, tamper, hp]
   | compactSwap r =>
     simp only [step, compactSwap, hp, ne_eq, not_true_eq_false, if_false]
     split
@@ -220,16 +223,31 @@ theorem idsUnique_of_inv {s : State} (h : Inv s) : idsUnique (observe s) = true 
   simp only [Bool.and_eq_true, decide_eq_true_eq, List.isPerm_iff]
   exact ⟨h.regIds_nodup, h.idx⟩
 
-theorem registryEqDb_of_inv {s : State} (h : Inv s) (hp : s.pending = []) : registryEqDb (observe s) = true := by
+theorem dbGet_append_left {db dead : List (String × Fields)} {k : String} {r : Fields} (h : dbGet db k = some r) :
+    dbGet (db ++ dead) k = some r := by
+  unfold dbGet at h ⊢
+  cases hf : db.find? (fun e => e.1 == k) with
+  | none => simp [hf] at h
+  | some e => rw [List.find?_append, hf]; simpa [hf] using h
+
+theorem registryEqDb_of_inv {s : State} (h : Inv s) (hd : DInv s) (hp : s.pending = []) :
+    registryEqDb (observe s) = true := by
   unfold registryEqDb observe
   simp only [Bool.and_eq_true, List.isPerm_iff, List.all_eq_true]
   refine ⟨?_, ?_⟩
   · have := h.dbIds_perm
     rw [hp] at this
+    have hfil : s.invalid.filter (fun i => !(s.reg.map (·.id)).contains i) = s.invalid := by
+      apply List.filter_eq_self.2
+      intro i hi
+      have := (hd.fresh i hi).1
+      simpa [State.regIds] using this
+    rw [hfil, hd.inv, List.map_append]
+    refine List.Perm.append ?_ (List.Perm.refl _)
     simpa [State.dbIds, State.regIds, written] using this
   · intro t ht
     obtain ⟨r, hr, hd⟩ := h.synced t ht
-    rw [dbGet_of_mem h.dbIds_nodup hr]
+    rw [dbGet_append_left (dbGet_of_mem h.dbIds_nodup hr)]
     exact hd
 
 end Rain.Registry
